@@ -259,7 +259,9 @@ def conditions(tier: str, seed: int) -> typing.List[Cond]:
         groups += [([0, 0, 0], [0, 0, 0]), ([1, 1, 0], [0, 0, 1]), ([2, 2, 2], [0, 0, 0]), ([1, 1, 1], [0, 0, 0]), ([0, 1, 2], [0, 0, 0]), ([3, 4], [0, 0]),
                    ([2, 2, 0], [0, 1, 1])]
     trios = [([0, 0, 0], [0, 0, 0], [1, 1, 1]), ([1, 1, 1], [0, 0, 0], [1, 1, 1]), ([2, 2, 2], [0, 0, 0], [2, 2, 2]),
-             ([0, 0, 0], [0, 0, 0], [0, 0, 0]), ([0, 0, 0], [0, 0, 0], [1, 1, 2])]
+             ([0, 0, 0], [0, 0, 0], [0, 0, 0]), ([0, 0, 0], [0, 0, 0], [1, 1, 2]),
+             # members of one (name, major) group separated by another definition in the list (grouping must not rely on order)
+             ([0, 0, 0], [0, 1, 0], [1, 1, 1]), ([0, 0, 0], [0, 0, 0], [1, 2, 1])]
     sig = {}  # type: typing.Dict[str, type]
     for nm, t in (("mj", int), ("n", int), ("h", bool), ("p", int), ("e", int)):
         for i in range(3):
